@@ -97,6 +97,8 @@ type c15Case struct {
 	// router arms the reload without the 'Save?' question (the dialogue
 	// is one line shorter than in the reference run).
 	Unmodified bool `json:"unmodified,omitempty"`
+	// The router refuses the command at which the banner is shown.
+	Refused bool `json:"refused,omitempty"`
 	// From the reference run.
 	StepClass string `json:"step_class"`
 	StepRaw   string `json:"step_raw"`
@@ -113,6 +115,9 @@ func (c *c15Case) id() string {
 	if c.Unmodified {
 		hh += "/unmodified"
 	}
+	if c.Refused {
+		hh += "/refused"
+	}
 	return fmt.Sprintf("script%d/%s@%d/%s/%s%s", c.Script, c.Banner.Form, c.Banner.Ord, c.Banner.Kind, c.Banner.Chunk, hh)
 }
 
@@ -128,6 +133,9 @@ func buildC15(sc liveScenario, c *c15Case, doApprove bool) *liveCase {
 	}
 	if c.Unmodified {
 		lc.Cli.Modified = false
+	}
+	if c.Refused && c.Banner != nil {
+		lc.Cli.Faults = []sim.Fault{{Ord: c.Banner.Ord, Kind: "error"}}
 	}
 	return lc
 }
@@ -306,6 +314,15 @@ func checkC15(tier, replay string) int {
 									continue
 								}
 								cases = append(cases, c)
+								// Twin in which the router refuses this change
+								// command: whatever the banner does to the echo,
+								// nothing may be written to memory.
+								if !hh && e.Class == "config-change" && chunk != "lines" && !strings.HasPrefix(f, "inside@1") && f != "after-prompt" &&
+									(tier == "thorough" || sampleHash(c.id()+"r", env.Seed)%2 == 0) {
+									rc := *c
+									rc.Refused = true
+									cases = append(cases, &rc)
+								}
 								// Twin on a router that does not ask 'Save?'.
 								if !hh && e.Ord != saveOrd && (tier == "thorough" || sampleHash(c.id()+"u", env.Seed)%3 == 0) {
 									u := *c
@@ -360,7 +377,12 @@ func checkC15(tier, replay string) int {
 				all += d
 			}
 		}
-		if clause == "" {
+		if c.Refused {
+			rep.Count("refused_twins", 1)
+			if clause == "" && !isCrash(lr.Res) && lr.Res.Exit == 0 {
+				clause, what = "exit-0-after-refused-change", "the router refused "+c.StepRaw+", the run exits 0: "+firstLines(all, 3)
+			}
+		} else if clause == "" {
 			switch {
 			case isCrash(lr.Res):
 				clause, what = "crash", firstLines(lr.Res.Stderr, 2)
@@ -372,7 +394,7 @@ func checkC15(tier, replay string) int {
 				clause, what = "spurious-error", firstLines(all, 3)
 			}
 		}
-		if clause == "" && c.Banner != nil && c.Banner.Kind == "1:00" && strings.HasPrefix(c.StepClass, "change-") {
+		if clause == "" && !c.Refused && c.Banner != nil && c.Banner.Kind == "1:00" && strings.HasPrefix(c.StepClass, "change-") {
 			// Re-arm must follow before new change commands are sent.
 			inflight := 0
 			rearmed := false
@@ -414,6 +436,9 @@ func checkC15(tier, replay string) int {
 				rep.Count(fmt.Sprintf("FAIL %s %s %s %s %s", form, kind, c.StepClass, c.Banner.Chunk, clause), 1)
 			}
 			key := fmt.Sprintf("ios:%s:%s:%s:%s", form, kind, c.StepClass, clause)
+			if c.Refused {
+				key += ":refused"
+			}
 			rep.Violation(key, what+" ["+c.id()+" step="+c.StepRaw+"]", func(dir string) {
 				b, _ := json.MarshalIndent(c, "", " ")
 				os.WriteFile(filepath.Join(dir, "case.json"), b, 0644)
